@@ -33,6 +33,9 @@ func registerAll() {
 	ev.Register("C01", "policy-events", checkC01)
 	ev.Register("C02", "grid", checkC02)
 	ev.Register("C07", "policy", checkC07)
+	ev.Register("C12", "entry", checkC12Entry)
+	ev.Register("C12", "arch", checkC12Arch)
+	ev.Register("C12", "processes", checkC12Processes)
 	ev.Register("C13", "history", checkC13History)
 	ev.Register("C13", "concurrent", checkC13Concurrent)
 	ev.Register("C13", "text", checkC13Text)
